@@ -6,7 +6,7 @@ CONSTANTS
   MaxSep = 2
   MinMarkers = 0
   LineKinds = {"c", "m", "f"}
-  Flags = {"offset_not_cleared"}
+  Flags = {"offset_not_cleared", "stale_offset"}
 INVARIANT Lossless
 INVARIANT KthChunk
 INVARIANT PastEndIsFeedback
